@@ -20,7 +20,9 @@ PROPERTY = "C13"
 LEVEL = "exploration"
 RULE = ("one run = one drawn device state (7 hashes, difficulty, 3 flag bytes, checkpoint, "
         "minimum difficulty, network, per-path keys, heartbeat material with DER shapes) queried "
-        "through getPubKey x6, blockchainState, blockchainParameters, signerHeartbeat and one "
+        "through getPubKey x6, blockchainState, blockchainParameters, signerHeartbeat (a second round after "
+        "the state advanced or the device was swapped; in a quarter of the runs one query in four meets a "
+        "link fault and may answer the device error) and one "
         "uiHeartbeat mode walk with drawn boot delays / post-exit modes / link-death kinds; "
         "non-trivial = all query kinds answered; distinct = tuple (difficulty length class, "
         "flag bytes, network, DER shapes, walk class, initial mode)")
